@@ -6,7 +6,7 @@
 #include <carquet/carquet.h>
 #ifdef INCLUDE_IMPL
 /* lemma obligations reach the static helpers: the real translation unit is included verbatim */
-#include "../../../repo/src/metadata/bloom_filter.c"
+#include "metadata/bloom_filter.c"   /* resolved via -I<repo>/src */
 #endif
 
 /* bloom_filter.c exports these without a public header */
